@@ -1,5 +1,6 @@
 CONSTANTS
   Procs = {1}
+  MaxObj = 4
   MaxCalls = 2
   Kinds = {"plain", "ctxval", "probectx", "fail1", "fmtopt", "fail2", "coerce", "custom", "catch"}
   SwResetCtxMap = TRUE
